@@ -126,6 +126,9 @@ func runC17(k *kernel.K) {
 	w := k.W
 	l := har.NewLogger()
 	k.AddSource(k.GateSource)
+	// seam R8: a caller can be parked right before any mutex acquisition inside the logger
+	har.VerifYieldHook = k.LockYield()
+	defer func() { har.VerifYieldHook = nil }()
 	ncall := w.Pick([]int{4, 2, 2, 2}) + 1 // 1..4 callers; one caller = sequential histories
 	nops := w.Range(1, 12)
 	if w.Chance(1, 4) {
